@@ -196,6 +196,26 @@ fn text_forms() -> Sub {
                 }
             }
         }
+        // a 33-byte id under mutated headers: version missing, doubled, padded, wrong case, foreign separator
+        if len == 33 {
+            let body = b64(&vec![0x5au8; 33]);
+            for p in ps.iter() {
+                let v = backends::ver_of(p.backend_idx);
+                let kind = p.header.trim_start_matches(&format!("k{v}")).to_string(); // ".lid." ...
+                for hdr in [kind.clone(), format!("k{v}k{v}{kind}"), format!("k{v}.k{v}{kind}"), format!(" k{v}{kind}"), format!("K{v}{kind}"), format!("k{v}{}", kind.to_uppercase()), format!("k{v}{}", kind.trim_end_matches('.')), format!("k{v}{kind}."), format!("k0{v}{kind}"), format!("k{v}{}", kind.replace('.', ":")), format!("k{v}{kind}").replacen('.', "..", 1)] {
+                    if hdr == p.header {
+                        continue;
+                    }
+                    o.evals += 1;
+                    let s = format!("{hdr}{body}");
+                    match subject(|| (p.parse)(&s)) {
+                        Ok(Ok(_)) => o.violate(format!("id-strings/{}/mutated-header-accepted", p.kind), format!("{}:{} accepted an id under the header {hdr:?}", p.backend, p.kind), json!({"string": s})),
+                        Ok(Err(_)) => o.class("rejected"),
+                        Err(pn) => o.violate(format!("id-strings/{}/panic", p.kind), pn, json!({"string": s})),
+                    }
+                }
+            }
+        }
         o.nontrivial = o.evals;
         if describe {
             o.sample = Some(json!({"decoded_len": len}));
